@@ -12,7 +12,7 @@ From ClapModel Require Import Derive.DeriveCmd Derive.DeriveArgs Derive.DerivePa
 From ClapModel Require Import Parse.Validator ParseProofs.Relations ParseProofs.ValidateTotal Derive.DerivePost Derive.DerivePostEx.
 From ClapModel Require Import ParseProofs.Dispatch Derive.LoopInv Derive.DeriveFlat Derive.DeriveTotal Derive.DeriveTotalEx.
 From ClapModel Require Import ParseProofs.KindSound Derive.DeriveUpdateLine Derive.DeriveUpdateLineEx Derive.DeriveDec Derive.DeriveKeys Derive.DerivePos.
-From ClapModel Require Import Derive.DeriveEnum Derive.DeriveEnumField Derive.DeriveEnumEx Derive.DeriveAbsent Derive.DeriveOptBool Derive.DeriveOptFlatten Derive.DeriveEnumPos.
+From ClapModel Require Import Derive.DeriveEnum Derive.DeriveEnumField Derive.DeriveEnumEx Derive.DeriveAbsent Derive.DeriveOptBool Derive.DeriveOptFlatten Derive.DeriveEnumPos Derive.DeriveRound5More.
 From Coq Require Import ZArith List.
 Import ListNotations.
 Open Scope N_scope.
@@ -1064,3 +1064,47 @@ Proof.
   split; [exact EnumPosEx.ex_valid|]. split; [exact EnumPosEx.ex_print|exact EnumPosEx.ex_roundtrip].
 Qed.
 Print Assumptions C15_roundtrip_parse_enum_positional_nonvacuous.
+
+(** * Round 5, additions (Derive/DeriveRound5More.v) *)
+
+(** under [ignore_case], an ASCII string equal up to ASCII case to an ASCII name or alias of a kept variant -- hidden or not --
+    passes the enum field's parser ([C04_possible_caseless] at [enum_pvs]; the harness builds clap with the cargo feature
+    `unicode`, under which non-ASCII strings are compared by full case folding: [C04_stored_possible]'s [name_eq]) *)
+Theorem C15_enum_ascii_caseless : forall cnt e i v n s,
+  nth_error e i = Some v -> vv_skip v = false -> In n (name_and_aliases (vv_pv v)) ->
+  is_ascii n = true -> is_ascii s = true -> BoolParseProofs.ascii_ci_eq n s ->
+  vp_parse (vp_of cnt true (TEnum e)) s = None.
+Proof. exact enum_ascii_caseless. Qed.
+Print Assumptions C15_enum_ascii_caseless.
+
+Theorem C15_enum_ascii_caseless_nonvacuous :
+  nth_error ex_henum 2 = Some (mkVv false {| pv_name := [100; 101; 108; 116; 97]; pv_aliases := [[100]] |} true)
+  /\ is_ascii [100; 101; 108; 116; 97] = true /\ is_ascii [68; 101; 76; 116; 65] = true
+  /\ BoolParseProofs.ascii_ci_eq [100; 101; 108; 116; 97] [68; 101; 76; 116; 65]
+  /\ vp_parse (vp_of false true (TEnum ex_henum)) [68; 101; 76; 116; 65] = None.
+Proof. exact enum_ascii_caseless_example. Qed.
+Print Assumptions C15_enum_ascii_caseless_nonvacuous.
+
+(** the UPDATE flavour of the generated argument ([command_for_update]) carries the same enum parser, coherently *)
+Theorem C15_enum_field_parser_update : forall f e, f_t f = TEnum e -> f_ty f <> TyUnit ->
+  a_vp (arg_build (field_arg true f)) = Some (Cmd.VPPossible (f_icase f) (enum_pvs e))
+  /\ a_ignore_case (arg_build (field_arg true f)) = f_icase f
+  /\ pv_coherent (arg_build (field_arg true f)) = true.
+Proof. exact enum_field_parser_update. Qed.
+Print Assumptions C15_enum_field_parser_update.
+
+(** every SEQUENCE of updates: a field reachable through required flattens and [Some] optional flattens that none of the matches
+    names stays reachable with the same value (induction on the list of matches) *)
+Theorem C15_update_seq_frame_optflatten : forall d ms vs vs' i x,
+  wf_nodes (d_nodes d) -> update_seq d vs ms = XOk vs' ->
+  Forall (fun m => m_contains i m = false) ms ->
+  field_ato (d_nodes d) vs i = Some x -> field_ato (d_nodes d) vs' i = Some x.
+Proof. exact update_seq_frame_ato. Qed.
+Print Assumptions C15_update_seq_frame_optflatten.
+
+(** WHY [Option<bool>] must not be a flag: with the action the seeded change gave it ([SetTrue], expressible in the model as an
+    explicit attribute) the round trip is broken -- [None] prints to the empty line, which parses to [Some(false)] *)
+Theorem C15_optbool_as_flag_refuted :
+  exists d v argv v', print d v = Some argv /\ derived_parse d ([112; 114; 111; 103] :: argv) = PValue v' /\ v' <> v.
+Proof. exact optbool_as_flag_refuted. Qed.
+Print Assumptions C15_optbool_as_flag_refuted.
